@@ -1208,19 +1208,25 @@ impl<'ast, 'res> Resolver<'ast, 'res> {
                 .join(ExprClass::PureMayTrap),
             Expr::Binary { op, lhs, rhs, .. } => {
                 let class = self.classify_expr(lhs).join(self.classify_expr(rhs));
-                // Operand types that are only known at run time can still mismatch there.
+                // Only operand types the evaluator always accepts rule a mismatch out: types
+                // known only at run time can mismatch there, and so can the statically
+                // accepted mixed pairs (`"a" add true`, `null or 5`).
                 if matches!(op, BinaryOp::Divide | BinaryOp::Mod)
-                    || self.has_runtime_type(lhs)
-                    || self.has_runtime_type(rhs)
+                    || !self.binary_operands_always_fit(*op, lhs, rhs)
                 {
                     class.join(ExprClass::PureMayTrap)
                 } else {
                     class
                 }
             }
-            Expr::Unary { expr, .. } => {
+            Expr::Unary { op, expr, .. } => {
                 let class = self.classify_expr(expr);
-                if self.has_runtime_type(expr) { class.join(ExprClass::PureMayTrap) } else { class }
+                let fits = match (op, self.infer_expr_type(expr)) {
+                    (UnaryOp::Not, Some(ValueType::Bool | ValueType::Null))
+                    | (UnaryOp::Minus, Some(ValueType::Number)) => true,
+                    _ => false,
+                };
+                if fits { class } else { class.join(ExprClass::PureMayTrap) }
             }
             Expr::Member { object, .. } => self.classify_expr(object),
             Expr::Call { callee, args, .. } => {
@@ -1240,10 +1246,9 @@ impl<'ast, 'res> Resolver<'ast, 'res> {
                     Expr::Member { object, field, .. } => {
                         class = class.join(self.classify_expr(object));
                         // The method may not exist for the receiver's run-time type, and
-                        // typed arguments are only checked when they are evaluated.
-                        if self.has_runtime_type(object)
-                            || args.args.iter().any(|arg| self.has_runtime_type(arg))
-                        {
+                        // arguments are only checked against the method's parameter types
+                        // when it is evaluated (`"abc".find(5)` is accepted here).
+                        if self.has_runtime_type(object) || !args.args.is_empty() {
                             class = class.join(ExprClass::PureMayTrap);
                         }
                         if let Some(builtin) = MemberBuiltin::from_name(field) {
@@ -1263,6 +1268,31 @@ impl<'ast, 'res> Resolver<'ast, 'res> {
     fn is_captured(&self, var: &str) -> bool {
         self.lookup_var_info(var)
             .is_some_and(|(_, local)| self.facts.locals[local.0 as usize].owner != self.current_owner)
+    }
+
+    /// True when the static operand types are a pair the evaluator accepts for `op` whatever
+    /// the values are.
+    fn binary_operands_always_fit(
+        &self,
+        op: BinaryOp,
+        lhs: ExprRef<'ast>,
+        rhs: ExprRef<'ast>,
+    ) -> bool {
+        use ValueType::{Bool, Null, Number, String};
+        let (Some(l), Some(r)) = (self.infer_expr_type(lhs), self.infer_expr_type(rhs)) else {
+            return false;
+        };
+        match op {
+            BinaryOp::Add => matches!((l, r), (Number | String, Number | String)),
+            BinaryOp::Minus | BinaryOp::Times | BinaryOp::Divide | BinaryOp::Mod => {
+                matches!((l, r), (Number, Number))
+            }
+            BinaryOp::Eq | BinaryOp::Gt | BinaryOp::Lt => matches!(
+                (l, r),
+                (Number, Number) | (String, String) | (Bool, Bool) | (Null, _) | (_, Null)
+            ),
+            BinaryOp::And | BinaryOp::Or => matches!((l, r), (Bool | Null, Bool | Null)),
+        }
     }
 
     /// True when the static type says nothing about the value the expression has at run time.
